@@ -31,7 +31,7 @@ LEAN_FILES = ["UscxmlVerif.Properties.C09"]
 G = 15         # ms of timer granularity granted to the implementation: libevent measures with CLOCK_MONOTONIC_COARSE (4 ms ticks here,
                # later in a virtual machine whose ticks are delayed) at event_add and at expiry; the log truncates to ms
 POINTS = ["delayq.run.before_loop", "delayq.stop.before_break", "delayq.timer.entry", "delayq.timer.before_deliver",
-          "delayq.timer.after_deliver", "delayq.cancel.before_del"]
+          "delayq.timer.after_deliver", "delayq.cancel.before_del", "libevent.after_add"]
 
 
 def gen_script(r):
@@ -142,7 +142,8 @@ def run_dq(ctx, lines):
 def suite_schedules(ctx, n):
     rng = ctx.rng
     cases = [gen_script(rng) for _ in range(n)]
-    cases += [("send:a:20,wait:25,cancel:a,wait:40", "delayq.timer.entry=30"), ("send:a:20,wait:25,cancel:a,wait:60", "delayq.timer.before_deliver=30"),
+    cases += [("send:a:1,send:b:2,send:c:3,wait:120", "libevent.after_add=40:3"), ("send:a:5,wait:100,send:a:1,wait:100", "libevent.after_add=20"),
+              ("send:a:20,wait:25,cancel:a,wait:40", "delayq.timer.entry=30"), ("send:a:20,wait:25,cancel:a,wait:60", "delayq.timer.before_deliver=30"),
               ("send:a:20,wait:25,cancel:a,wait:60", "delayq.timer.after_deliver=30"), ("send:a:10,wait:15", "delayq.timer.before_deliver=40,delayq.stop.before_break=5"),
               ("send:a:10,send:a:10,wait:12,send:a:1,cancelall,wait:5", "delayq.timer.entry=10:2,delayq.cancel.before_del=10")]
     lines = ["%s\t%s" % c for c in cases]
